@@ -62,6 +62,8 @@ type Version struct {
 	TxnProc   protocol.TxnProcessor
 	Validator *didvalidator.Validator
 	Transf    *didtransformer.Transformer
+	// HandlerOverride, when set, is returned by OperationHandler() (instrumentation)
+	HandlerOverride protocol.OperationHandler
 }
 
 // DCAS is what the operation provider needs.
@@ -113,7 +115,12 @@ func (v *Version) OperationParser() protocol.OperationParser { return v.Parser }
 func (v *Version) OperationApplier() protocol.OperationApplier { return v.Applier }
 
 // OperationHandler implements protocol.Version.
-func (v *Version) OperationHandler() protocol.OperationHandler { return v.Handler }
+func (v *Version) OperationHandler() protocol.OperationHandler {
+	if v.HandlerOverride != nil {
+		return v.HandlerOverride
+	}
+	return v.Handler
+}
 
 // OperationProvider implements protocol.Version.
 func (v *Version) OperationProvider() protocol.OperationProvider { return v.Provider }
